@@ -56,7 +56,7 @@ def Req.spanF (t : Task) (r : Req) : Fml :=
       else .and [.eq bs (.add t.sVar (numT (max 0 r.delayIn))), .eq be (.sub t.eVar (numT (max 0 r.earlyOut)))]
 
 def countF (k : CountKind) (flags : List Fml) (n : Nat) : Fml :=
-  let s := Term.sum (flags.map (fun f => Term.ite f (numT 1) (numT 0)))
+  let s := sumOrZero (flags.map (fun f => Term.ite f (numT 1) (numT 0)))
   match k with
   | .exact => .eq s (numT n)
   | .min => .ge s (numT n)
@@ -70,7 +70,7 @@ def specC02 (st : State) : List Fml :=
      | .viaSelect _ s _ true => [countF s.kind s.flags s.n]
      | _ => []))) ++
   st.tasks.flatMap (fun t =>
-    if t.work > 0 && !(workTerms st t).isEmpty then [Fml.ge (.sum (workTerms st t)) (numT t.work)] else [])
+    if t.work > 0 && !(workTerms st t).isEmpty then [Fml.ge (sumOrZero (workTerms st t)) (numT t.work)] else [])
 
 /-! ### C03 -/
 
@@ -108,7 +108,7 @@ def CBody.taskMeaningF : CBody → Option Fml
       -- lower half of `exact`
       (match kind with
        | .max => none
-       | _ => some (.ge (.sum (ts.map (fun t => Term.ite (insideAny t ivs) (numT 1) (numT 0)))) (numT n)))
+       | _ => some (.ge (sumOrZero (ts.map (fun t => Term.ite (insideAny t ivs) (numT 1) (numT 0)))) (numT n)))
   | .forceSchedule t b => some (.iff (.bvar (.sched t.name)) (if b then .tt else .ff))
   | .conditionSchedule t cond => some (.iff (.bvar (.sched t.name)) cond)
   | .dependency t1 t2 => some (.iff (.bvar (.sched t2.name)) t1.schedF)
@@ -133,7 +133,7 @@ def CBody.resMeaningF : CBody → Option Fml
       some (.and (ivs.flatMap (fun iv => busy.map (fun b => Fml.or [.ge b.s (numT iv.2), .le b.e (numT iv.1)]))))
   | .workload busy ivs kind =>
       some (.and (ivs.map (fun iv =>
-        let total := Term.sum (busy.map (fun b => overlapT b iv.1.1 iv.1.2))
+        let total := sumOrZero (busy.map (fun b => overlapT b iv.1.1 iv.1.2))
         match kind with
         | .exact => Fml.eq total (numT iv.2)
         | .max => Fml.le total (numT iv.2)
@@ -151,6 +151,43 @@ def specC04 (st : State) : List Fml :=
     match c.body.resMeaningF with
     | some f => some (if c.optional then Fml.imp (.bvar (.applied c.id)) f else f)
     | none => none)
+
+/-! ### C08 -/
+
+def maxOfF (v : Term) (xs : List Term) : Fml := .and (Fml.or (xs.map (fun x => Fml.eq v x)) :: xs.map (fun x => Fml.ge v x))
+def minOfF (v : Term) (xs : List Term) : Fml := .and (Fml.or (xs.map (fun x => Fml.eq v x)) :: xs.map (fun x => Fml.le v x))
+
+def IBody.defF (v : Term) : IBody → Option Fml
+  | .expr t _ => some (.eq v t)
+  | .utilization busy (some h) => some (.eq v (.div (.mul (numT 100) (sumOrZero (busy.map (fun b => Term.sub b.e b.s)))) (numT h)))
+  | .utilization busy none =>
+      some (.eq v (.div (.mul (numT 100) (sumOrZero (busy.map (fun b => Term.sub b.e b.s)))) (.var .horizon)))
+  | .nbTasksAssigned busy => some (.eq v (sumOrZero (busy.map (fun b => Term.ite (.ge b.s (numT 0)) (numT 1) (numT 0)))))
+  | .tardiness ts => some (.eq v (sumOrZero (ts.map (fun t =>
+      Term.ite t.schedF (.mul (numT t.prio) (maxT (numT 0) (.sub t.eVar (numT (t.due.getD 0))))) (numT 0)))))
+  | .earliness ts => some (.eq v (sumOrZero (ts.map (fun t =>
+      Term.ite t.schedF (maxT (numT 0) (.sub (numT (t.due.getD 0)) t.eVar)) (numT 0)))))
+  | .nbTardy ts => some (.eq v (sumOrZero (ts.map (fun t => Term.ite (.gt t.eVar (numT (t.due.getD 0))) (numT 1) (numT 0)))))
+  | .maxLateness ts => some (maxOfF v (ts.map (fun t => Term.sub t.eVar (numT (t.due.getD 0)))))
+  | .maxBuffer levels => some (maxOfF v levels)
+  | .minBuffer levels => some (minOfF v levels)
+  | .resourceCost items =>
+      -- constant costs only (polynomial / linear costs make the definition non linear)
+      if items.all (fun it => match it.1 with | .const _ => true | _ => false) then
+        some (.eq v (sumOrZero (items.flatMap (fun it => match it.1 with
+          | .const k => it.2.map (fun b => Term.mul (numT k) (.sub b.e b.s))
+          | _ => []))))
+      else none
+  | _ => none
+
+def specC08 (st : State) : List Fml :=
+  st.indicators.filterMap (fun i => i.body.defF (.var i.var)) ++
+  (st.constrs.filter (fun c => !c.operand)).flatMap (fun c => match c.body with
+    | .indicatorTarget v value => [Fml.eq (.var v) (numT value)]
+    | .indicatorBounds v lo hi =>
+        (match lo with | some l => [Fml.ge (.var v) (numT l)] | none => []) ++
+        (match hi with | some h => [Fml.le (.var v) (numT h)] | none => [])
+    | _ => [])
 
 /-! ### C10 -/
 
